@@ -203,6 +203,7 @@ def explore(case, roots=None, max_paths=10**9, deadline=None, timeout_ms=20000, 
                tags={}, xval_ok=0, xval_fail=[], samples=[], exceptions={}, forks=0)
     xval_done = 0
     xval_attempts = 0
+    viol_per_label = {}
     known_replayed = {}
     while work:
         if res["paths"] >= max_paths or (deadline is not None and time.time() > deadline):
@@ -288,6 +289,12 @@ def explore(case, roots=None, max_paths=10**9, deadline=None, timeout_ms=20000, 
                     res["unknown"] += 1
                     continue
             # candidate violation ------------------------------------------------------
+            if viol_per_label.get(label, 0) >= 3:
+                # this obligation has already been violated and replayed three times in this job: count, do not search again
+                res["more_violations_not_replayed"] = res.get("more_violations_not_replayed", 0) + 1
+                L["violated"] += 1
+                path_violated = True
+                continue
             kmatch = None
             for kf in known:
                 if kf.get("obligation") == label:
@@ -357,6 +364,7 @@ def explore(case, roots=None, max_paths=10**9, deadline=None, timeout_ms=20000, 
                     res["known_hits"].append(dict(label=label, known=kmatch.get("id")))
             else:
                 res["violations"].append(rec)
+                viol_per_label[label] = viol_per_label.get(label, 0) + 1
         # path-model cross validation of the encoding (and reachability twin) --------
         if not path_violated and exc is None and xval_done < xval and xval_attempts < xval + 2:
             xval_done += 1
@@ -415,7 +423,7 @@ def merge(a, b):
     """merge result b into a"""
     for k in ("paths", "feasible", "infeasible", "queries", "solver_s", "unknown", "aborted", "ob_queries", "discharged",
               "trivially_true", "xval_ok", "forks", "wall_s", "xval_uf_skipped", "known_unreplayed", "xval_skipped_no_float_safe_model",
-              "second_solver_unsat", "second_solver_sat", "second_solver_unknown", "second_solver_error"):
+              "second_solver_unsat", "second_solver_sat", "second_solver_unknown", "second_solver_error", "more_violations_not_replayed"):
         a[k] = a.get(k, 0) + b.get(k, 0)
     for k in ("abort_reasons", "tags", "exceptions"):
         d = a.setdefault(k, {})
